@@ -8,7 +8,7 @@
 (***************************************************************************)
 EXTENDS Integers, Sequences, SequencesExt, FiniteSets, FiniteSetsExt, Json, TLC
 ApiOps    == {"shutdown", "getlistener", "register"}       \* the operations C16 lists as intended concurrent use
-ClientOps == {"client", "clientcancel", "clientabort", "upgrade", "clientreuse", "rwcancel"}
+ClientOps == {"client", "clientcancel", "clientabort", "upgrade", "clientreuse", "rwcancel", "bridgeclose"}
 Phases    == {"starting", "boundstarting", "serving", "draining"}
 Subsets(S, lo, hi) == {x \in SUBSET S : Cardinality(x) >= lo /\ Cardinality(x) <= hi}
 (* every pair and triple of operations with at least one API call, in every phase, *)
